@@ -193,6 +193,8 @@ def run(prog: Program, L: Ledger) -> None:
 
                 r = ev.run(init.body(), stop)
             except Undecided as exc:
+                if case == "None":
+                    continue  # only the not-None cases carry an obligation
                 raise AnalysisError(f"Driver.__init__ seed path, case seed={case}: {exc}") from exc
             got = hit["v"]
             if r == "raise":
@@ -214,6 +216,14 @@ def run(prog: Program, L: Ledger) -> None:
 
     # unseeded bit generators: allowed only inside the _seed fallback
     inl_seed = norm(Inliner(init.node).inline(seed_value_expr))
+    seed_names = {n.id for n in ast.walk(seed_value_expr) if isinstance(n, ast.Name)}
+    for st in walk_no_nested(init.node):
+        if isinstance(st, (ast.Assign, ast.AnnAssign)) and st.value is not None and st is not rng_assign:
+            tg = st.targets if isinstance(st, ast.Assign) else [st.target]
+            if st is seed_stmt or any(isinstance(t, ast.Name) and t.id in seed_names for t in tg):
+                # statements feeding self._seed: their text counts as part of the fallback (the case
+                # analysis above already showed they do not run when a seed is given)
+                inl_seed += " ; " + norm(st.value)
     for fi in prog.iter_functions():
         for call in calls_in(fi.node):
             d = dotted(call.func)
